@@ -260,7 +260,7 @@ def run(ctx):
             ctx.violation(case, 'regression corpus %s: %s' % (os.path.basename(path), why))
     # systematic seed enumeration on shipped programs
     with driver.Scratch('c13s') as scratch:
-        K = 600 if quick else 20000
+        K = 1500 if quick else 30000
         jobs = []
         imgs = toolchain.shipped_images(scratch)
         pick = [i for i in imgs if i[0] in ('hello.S', 'exit255.S', 'hello_putval.x#0', 'echo_char.x#0', 'fib.x#0', 'exit.x#0')]
@@ -289,7 +289,7 @@ def run(ctx):
                     case = dict(kind='seed', image=open(img, 'rb').read().hex(), input=inp.hex(), seed=s, exp_out=exp[0].hex(), exp_rc=exp[1], exp_used=exp[2], source=os.path.basename(img))
                     report(ctx, case, why)
         ctx.nontrivial_extra += sum(n for n, _ in res)
-    failures = hyp.fan_out(ctx, 'pylib.props.c13', 'gen_case', 150 if quick else 8000, extra={'tier': ctx.tier})
+    failures = hyp.fan_out(ctx, 'pylib.props.c13', 'gen_case', 400 if quick else 8000, extra={'tier': ctx.tier})
     seen = set()
     for f in failures:
         c = f['case']['kind'] + f['why'].split(':')[0] + f['why'][:40]
